@@ -253,6 +253,8 @@ func runRLK(c *eng.Ctx, cf cfg) {
 		if !c.Try("C14|"+P+".GenRelinearizationKey", func() { protos[rnd.N(e.np)].GenRelinearizationKey(agg1, agg2, rlk) }) {
 			continue
 		}
+		c.Count("finalised_keys_checked_for_shared_storage", 1)
+		c.Check(!sharesStorage(gadgetRows(&rlk.GadgetCiphertext), append(shareRows(agg1), shareRows(agg2)...)), "C14|"+P+".GenRelinearizationKey|key-shares-storage-with-share", nil)
 		{
 			canon := func(s rshare, o *ops[rshare]) rshare {
 				cp := o.leaf(0, false)
